@@ -25,6 +25,8 @@ import (
 func c14QuicScenario(c *choice.Ctx, rep *report.R, depth int) {
 	own := env.InstallOwn(0xA5, vRace)
 	defer env.UninstallOwn()
+	pauseBegin(c)
+	defer pauseEnd()
 	d := env.NewDialer("udp")
 	var cmu sync.Mutex
 	var conns []*env.FakeQuicConn
@@ -43,7 +45,7 @@ func c14QuicScenario(c *choice.Ctx, rep *report.R, depth int) {
 		return fc, nil
 	}})
 	var calls []*call
-	finished := false
+	finished, closing := false, false
 	defer func() {
 		if !finished {
 			cmu.Lock()
@@ -56,7 +58,7 @@ func c14QuicScenario(c *choice.Ctx, rep *report.R, depth int) {
 	}()
 	var trace []string
 	fail := func(sig, msg string) {
-		rep.Violate("C14:quic:"+sig, msg+"\n  quic: "+strings.Join(trace, " "), map[string]any{"Choices": c.Choices(), "Kind": "quic"})
+		rep.Violate("C14:quic:"+sig, msg+"\n  quic: "+strings.Join(trace, " ")+pauseNote(), map[string]any{"Choices": c.Choices(), "Kind": "quic"})
 	}
 	const timeout = 2 * time.Second
 	type skey struct{ c, s int }
@@ -65,6 +67,9 @@ func c14QuicScenario(c *choice.Ctx, rep *report.R, depth int) {
 	sent := map[byte]string{}
 	connsAtStart := map[int]int{} // exchange -> number of connections that existed when it started
 	envFaulted := false           // a dial fault or a stalled stream was scripted in this execution
+	killedByEnv := map[int]bool{} // connections the environment killed
+	stragglers := map[skey]bool{} // streams of killed connections that have not been told yet
+	otherFault := false           // a fault other than the death of a whole connection happened in this execution
 	getConns := func() []*env.FakeQuicConn {
 		cmu.Lock()
 		defer cmu.Unlock()
@@ -78,11 +83,36 @@ func c14QuicScenario(c *choice.Ctx, rep *report.R, depth int) {
 			if cl.nilnil {
 				fail("nil-nil", fmt.Sprintf("exchange %d returned (nil, nil)", cl.idx))
 			}
-			if cl.inflight() && !time.Now().Before(cl.deadline) {
+			if cl.inflight() && !time.Now().Before(cl.deadline) && !paused() {
 				fail("missed-deadline", fmt.Sprintf("exchange %d still running at its deadline", cl.idx))
 			}
 			if cl.done && cl.doneAt.After(cl.deadline) {
 				fail("late-return", fmt.Sprintf("exchange %d returned %v after its deadline", cl.idx, cl.doneAt.Sub(cl.deadline)))
+			}
+			if cl.done && cl.resp == nil && !cl.canceled && !otherFault && !envFaulted && cl.doneAt.Before(cl.deadline) && !closing {
+				// The only faults so far are deaths of whole connections. An exchange may report that if it happened to a
+				// connection that was new to it; it must survive the death of a connection it took over, and it has nothing to
+				// do with the death of a connection it never used.
+				excused := false
+				for ci, fc := range getConns() {
+					if !killedByEnv[ci] || !(connsAtStart[cl.idx] <= ci) {
+						continue
+					}
+					if pz.used {
+						excused = true // held between getting the connection and writing to it, the exchange may have met the dead connection without its query ever being on it
+					}
+					for si := 0; si < fc.NumStreams(); si++ {
+						st, _ := fc.Stream(si)
+						if fs, _ := env.SplitFrames(st.E.Written()); len(fs) == 1 {
+							if q, err := refdns.Decode(fs[0]); err == nil && len(q.Q) == 1 && cl.name.Equal(q.Q[0].Name) {
+								excused = true
+							}
+						}
+					}
+				}
+				if !excused {
+					fail("collateral-failure", fmt.Sprintf("the only faults were deaths of whole connections, none of them a connection that was new to exchange %d and carried its query; new connections are healthy, yet the exchange failed: %s", cl.idx, cl))
+				}
 			}
 			if cl.resp != nil {
 				_, s, ok := env.AnswerKey(cl.resp)
@@ -116,8 +146,10 @@ func c14QuicScenario(c *choice.Ctx, rep *report.R, depth int) {
 				cl := newCall(len(calls), 0)
 				calls = append(calls, cl)
 				connsAtStart[cl.idx] = len(getConns())
-				if d.Pending() > 0 || d.Hanging() > 0 {
-					connsAtStart[cl.idx] = -1 // a dial is in progress: whatever connection it yields is new to this exchange
+				if d.Pending() > 0 || d.Hanging() > 0 || paused() {
+					// a dial is in progress (or a goroutine stands still, possibly the dialling one between getting its connection
+					// and publishing it): whatever connection it yields is new to this exchange
+					connsAtStart[cl.idx] = -1
 				}
 				cl.start(tr, timeout)
 			}})
@@ -140,9 +172,16 @@ func c14QuicScenario(c *choice.Ctx, rep *report.R, depth int) {
 		for ci, fc := range getConns() {
 			ci, fc := ci, fc
 			if fc.IsClosed() {
+				for si := 0; si < fc.NumStreams(); si++ {
+					si, k := si, skey{ci, si}
+					if stragglers[k] {
+						menu = append(menu, event{name: fmt.Sprintf("straggler-learns(c%d.s%d)", ci, si), do: func() { delete(stragglers, k); fc.KillStream(si) }})
+					}
+				}
 				continue
 			}
 			menu = append(menu, event{name: fmt.Sprintf("conn-dies(c%d)", ci), fault: true, do: func() {
+				killedByEnv[ci] = true
 				// exchanges whose query is on this connection, which for them was a connection taken over from an earlier exchange
 				var victims []*call
 				for si := 0; si < fc.NumStreams(); si++ {
@@ -161,10 +200,13 @@ func c14QuicScenario(c *choice.Ctx, rep *report.R, depth int) {
 					}
 				}
 				fc.Die()
-				if envFaulted || len(victims) == 0 {
-					return
+				if envFaulted || len(victims) == 0 || paused() {
+					return // (a goroutine held at a pause point may be the victim, or the one whose dial the victim waits for)
 				}
 				wait()
+				if paused() {
+					return
+				}
 				// the server is healthy for new connections: the retry's query is answered
 				for j, fc2 := range getConns()[ci+1:] {
 					for si := 0; si < fc2.NumStreams(); si++ {
@@ -185,12 +227,28 @@ func c14QuicScenario(c *choice.Ctx, rep *report.R, depth int) {
 					}
 				}
 				wait()
+				if paused() {
+					return
+				}
 				for _, cl := range victims {
 					if !cl.done || cl.resp == nil {
 						fail("reused-connection-failure-not-survived", fmt.Sprintf("exchange %d was on connection %d, taken over from an earlier exchange, when it died; new connections are healthy, yet the exchange did not succeed: %s", cl.idx, ci, cl))
 					}
 				}
 			}})
+			for si := 0; si < fc.NumStreams(); si++ {
+				si := si
+				st, _ := fc.Stream(si)
+				if answered[skey{ci, si}] || st.E.IsClosed() || fc.NumStreams() < 2 {
+					continue
+				}
+				// the connection dies, and the exchange on stream si learns of it later than everybody else
+				menu = append(menu, event{name: fmt.Sprintf("conn-dies-straggler(c%d.s%d)", ci, si), fault: true, do: func() {
+					killedByEnv[ci] = true
+					stragglers[skey{ci, si}] = true
+					fc.DieExcept(si)
+				}})
+			}
 			for si := 0; si < fc.NumStreams(); si++ {
 				si := si
 				st, _ := fc.Stream(si)
@@ -239,11 +297,20 @@ func c14QuicScenario(c *choice.Ctx, rep *report.R, depth int) {
 			break
 		}
 		trace = append(trace, ev.name)
+		if ev.fault && !strings.HasPrefix(ev.name, "conn-dies") {
+			otherFault = true
+		}
 		ev.do()
 		wait()
 		check()
 	}
 	// a healthy server afterwards: a fresh exchange must succeed on a (possibly new) connection
+	selOff()
+	pauseOff()
+	if resume() {
+		wait()
+		check()
+	}
 	d.ClearScript()
 	cmu.Lock()
 	stallNext = false
@@ -282,6 +349,7 @@ func c14QuicScenario(c *choice.Ctx, rep *report.R, depth int) {
 	if !last.done || last.resp == nil {
 		fail("wedged-after-fault", fmt.Sprintf("an exchange against a healthy server after the faults did not succeed: %s", last))
 	}
+	closing = true
 	for _, cl := range calls {
 		cl.cancel()
 	}
